@@ -60,3 +60,22 @@ pub const TARGET_MAP: [(&str, i32); 10] = [
     (EXECUTED_STATE_CHANGING, 1 << 9),
     (JOIN_BEHAVIOUR, 1 << 10),
 ];
+
+/// Verification-only probes: a thread-local list of (name, detail) records that a simulation
+/// harness drains after each interpreter run. Compiled only with the `verif_probes` feature.
+#[cfg(feature = "verif_probes")]
+pub mod probe {
+    use std::cell::RefCell;
+
+    thread_local! {
+        static HITS: RefCell<Vec<(&'static str, String)>> = const { RefCell::new(Vec::new()) };
+    }
+
+    pub fn hit(name: &'static str, detail: String) {
+        HITS.with(|hits| hits.borrow_mut().push((name, detail)));
+    }
+
+    pub fn drain() -> Vec<(&'static str, String)> {
+        HITS.with(|hits| std::mem::take(&mut *hits.borrow_mut()))
+    }
+}
